@@ -230,7 +230,7 @@ Definition qe_div a b := match a, b with QC x, QC y => QC (Qred (x / y)) | _, _ 
 Definition qe_opp a := match a with QC x => QC (Qred (- x)) | _ => QOpp a end.
 (* Comparisons.  On constants they are exact.  On expressions containing exp
    they answer `true` only when elementary rational bounds prove the inequality
-   (0 < exp x, 1 + x <= exp x, exp x <= 1/(1-x) for x < 1); an undecided
+   (0 < exp x, 1 + x <= exp x, exp x <= 1/(1-x) for x < 1, 1 - 1/y <= ln y <= y - 1); an undecided
    comparison answers `false`, which the correspondence would expose as a
    mismatch with the implementation (it never silently agrees). *)
 Fixpoint qe_lo (e : qe) : option Q :=
@@ -238,6 +238,7 @@ Fixpoint qe_lo (e : qe) : option Q :=
   | QC q => Some q
   | QExp (QC x) => Some (Qmax 0 (1 + x))
   | QExp _ => Some 0
+  | QLn (QC y) => match Qcompare 0 y with Lt => Some (1 - 1 / y) | _ => None end
   | QOpp a => option_map Qopp (qe_hi a)
   | QAdd a b => match qe_lo a, qe_lo b with Some x, Some y => Some (x + y) | _, _ => None end
   | QSub a b => match qe_lo a, qe_hi b with Some x, Some y => Some (x - y) | _, _ => None end
@@ -247,6 +248,7 @@ with qe_hi (e : qe) : option Q :=
   match e with
   | QC q => Some q
   | QExp (QC x) => match Qcompare x 1 with Lt => Some (1 / (1 - x)) | _ => None end
+  | QLn (QC y) => match Qcompare 0 y with Lt => Some (y - 1) | _ => None end
   | QOpp a => option_map Qopp (qe_lo a)
   | QAdd a b => match qe_hi a, qe_hi b with Some x, Some y => Some (x + y) | _, _ => None end
   | QSub a b => match qe_hi a, qe_lo b with Some x, Some y => Some (x - y) | _, _ => None end
@@ -275,7 +277,12 @@ Definition qe_leb a b :=
   end.
 Definition qe_eqb a b := match a, b with QC x, QC y => Qeq_bool x y | _, _ => false end.
 Definition qe_ln a := match a with QC x => if Qeq_bool x 1 then QC 0 else QLn a | _ => QLn a end.
-Definition qe_exp a := match a with QC x => if Qeq_bool x 0 then QC 1 else QExp a | _ => QExp a end.
+Definition qe_exp a :=
+  match a with
+  | QC x => if Qeq_bool x 0 then QC 1 else QExp a
+  | QLn (QC y) => match Qcompare 0 y with Lt => QC y | _ => QExp a end    (* exp (ln y) = y for y > 0 *)
+  | _ => QExp a
+  end.
 
 Definition QEops : NumOps := {|
   num := qe;
